@@ -35,6 +35,8 @@ type Obs struct {
 	Limit   uint32        `json:"limit,omitempty"`
 	Result  string        `json:"result,omitempty"`
 	Err     string        `json:"err,omitempty"`
+	// LagA: how far node A's backend was behind the tip of the scenario's chain when this was recorded
+	LagA    uint32        `json:"lag_a,omitempty"`
 	BtcTip  uint32        `json:"btc_tip"`
 	LbtcTip uint32        `json:"lbtc_tip"`
 	Extra   string        `json:"extra,omitempty"`
@@ -43,6 +45,9 @@ type Obs struct {
 
 // World holds everything outside the nodes under test.
 type World struct {
+	// HeightLag: node/chain -> number of blocks the node's backend is behind in its answers to
+	// getblockcount (a backend that is still syncing or was restored from a snapshot); at most one entry is used
+	HeightLag map[string]uint32
 	mu    sync.Mutex
 	Epoch time.Time
 	Btc   *Chain
@@ -91,6 +96,9 @@ func (w *World) recordLocked(o Obs) {
 	o.Seq = len(w.Log)
 	o.At = w.now()
 	o.BtcTip = w.Btc.Height
+	for _, l := range w.HeightLag {
+		o.LagA = l
+	}
 	o.LbtcTip = w.Lbtc.Height
 	w.Log = append(w.Log, o)
 }
@@ -171,6 +179,14 @@ func (w *World) FaultKey() string {
 		}
 	}
 	sort.Strings(ps)
+	var ls []string
+	for k, v := range w.HeightLag {
+		ls = append(ls, fmt.Sprintf("%s=%d", k, v))
+	}
+	sort.Strings(ls)
+	if len(ls) > 0 {
+		return fmt.Sprintf("F%v P%v L%v", ks, ps, ls)
+	}
 	return fmt.Sprintf("F%v P%v", ks, ps)
 }
 
@@ -282,4 +298,16 @@ func (l *Life) Op(effect bool) {
 func Sha256Hex(b []byte) string {
 	h := sha256.Sum256(b)
 	return hex.EncodeToString(h[:])
+}
+
+// ReportedTip is the height the node's backend answers for the chain (tip minus its lag).
+func (w *World) ReportedTip(node string, c *Chain) uint32 {
+	t := c.Tip()
+	w.mu.Lock()
+	l := w.HeightLag[node+"/"+c.Name]
+	w.mu.Unlock()
+	if l > t {
+		return 0
+	}
+	return t - l
 }
